@@ -45,7 +45,17 @@ pub enum StubScn {
         /// ... and (if set) also retries successes while attempt < this
         retry_ok_below: u32,
         latency_yields: u32,
+        /// the caller's deadline, ms from the start of the call
+        #[serde(default = "default_retry_deadline")]
+        deadline_ms: u64,
+        /// simulated time each attempt takes (so that attempts can end after the deadline)
+        #[serde(default)]
+        attempt_ms: u64,
     },
+}
+
+fn default_retry_deadline() -> u64 {
+    10_000
 }
 
 impl StubScn {
@@ -54,6 +64,16 @@ impl StubScn {
             StubScn::RoundRobin { backends, latency, preempt_permille, .. } => *backends >= 1 && latency.len() >= *backends && *preempt_permille <= 1000,
             StubScn::Hash { backends, .. } => *backends >= 1,
             StubScn::Retry { max_attempts, .. } => *max_attempts <= 64,
+        }
+    }
+}
+
+/// Retry scenarios only (the part of the stub space in which a deadline is carried).
+pub fn gen_retry(rng: &mut Rng) -> StubScn {
+    loop {
+        let s = gen(rng);
+        if matches!(s, StubScn::Retry { .. }) {
+            return s;
         }
     }
 }
@@ -86,6 +106,8 @@ pub fn gen(rng: &mut Rng) -> StubScn {
                 max_attempts: rng.range(0, 8) as u32,
                 retry_ok_below: if rng.chance(300) { rng.range(1, 4) as u32 } else { 0 },
                 latency_yields: rng.below(3) as u32,
+                deadline_ms: *rng.pick(&[0u64, 5, 5, 20, 10_000]),
+                attempt_ms: *rng.pick(&[0u64, 0, 3, 8, 30]),
             }
         }
     }
@@ -159,6 +181,7 @@ struct RetryBackend {
     attempt: RefCell<usize>,
     ptrs: RefCell<Vec<usize>>,
     yields: u32,
+    sleep_ms: u64,
 }
 
 fn scripted(kind: u8, n: usize) -> Result<u64, RpcError> {
@@ -193,7 +216,7 @@ impl std::ops::Deref for RetryBackendRef {
 impl Stub for RetryBackendRef {
     type Req = Arc<u64>;
     type Resp = u64;
-    async fn call(&self, _ctx: context::Context, req: Arc<u64>) -> Result<u64, RpcError> {
+    async fn call(&self, ctx: context::Context, req: Arc<u64>) -> Result<u64, RpcError> {
         let n = {
             let mut a = self.attempt.borrow_mut();
             *a += 1;
@@ -201,8 +224,13 @@ impl Stub for RetryBackendRef {
         };
         self.ptrs.borrow_mut().push(Arc::as_ptr(&req) as usize);
         self.sim.log(EvKind::Note { what: "retry_backend_call", a: n as i64, b: *req as i64 });
+        self.sim.log(EvKind::Note { what: "retry_ctx_deadline", a: n as i64, b: self.sim.ms_of_local(ctx.deadline) });
+        self.sim.log(EvKind::Note { what: "retry_ctx_trace", a: n as i64, b: (u128::from(ctx.trace_context.trace_id) as u64 >> 1) as i64 });
         for _ in 0..self.yields {
             yield_once().await;
+        }
+        if self.sleep_ms > 0 {
+            tokio::time::sleep(std::time::Duration::from_millis(self.sleep_ms)).await;
         }
         let kind = self.results.get(n - 1).copied().unwrap_or(0);
         scripted(kind, n)
@@ -258,8 +286,8 @@ pub fn run(scn: &StubScn, tape: Tape) -> RunOutput {
                         }
                     }));
                 }
-                StubScn::Retry { results, max_attempts, retry_ok_below, latency_yields } => {
-                    let be = RetryBackendRef(Rc::new(RetryBackend { sim: sim.clone(), results, attempt: RefCell::new(0), ptrs: RefCell::new(Vec::new()), yields: latency_yields }));
+                StubScn::Retry { results, max_attempts, retry_ok_below, latency_yields, deadline_ms, attempt_ms } => {
+                    let be = RetryBackendRef(Rc::new(RetryBackend { sim: sim.clone(), results, attempt: RefCell::new(0), ptrs: RefCell::new(Vec::new()), yields: latency_yields, sleep_ms: attempt_ms }));
                     let sim_p = sim.clone();
                     let policy = move |r: &Result<u64, RpcError>, attempt: u32| {
                         sim_p.log(EvKind::Note { what: "policy", a: attempt as i64, b: result_code(r) });
@@ -273,7 +301,11 @@ pub fn run(scn: &StubScn, tape: Tape) -> RunOutput {
                     let retry = Retry::new(be.clone(), policy);
                     let (sim_t, extra_t) = (sim.clone(), extra.clone());
                     tasks.push(sim.spawn("retry_caller", async move {
-                        let r = retry.call(context::current(), 42u64).await;
+                        let mut ctx = context::current();
+                        ctx.deadline = sim_t.instant_at(sim_t.now_ms() + deadline_ms as i64);
+                        sim_t.log(EvKind::Note { what: "retry_caller_deadline", a: 0, b: sim_t.ms_of_local(ctx.deadline) });
+                        sim_t.log(EvKind::Note { what: "retry_caller_trace", a: 0, b: (u128::from(ctx.trace_context.trace_id) as u64 >> 1) as i64 });
+                        let r = retry.call(ctx, 42u64).await;
                         sim_t.log(EvKind::Note { what: "retry_done", a: 0, b: result_code(&r) });
                         let ptrs = be.ptrs.borrow();
                         if ptrs.windows(2).any(|w| w[0] != w[1]) {
@@ -397,6 +429,23 @@ pub fn check(scn: &StubScn, log: &[Ev], sim: &Sim) -> Vec<Violation> {
             if let Some(d) = done {
                 if d != want_last {
                     v.push(viol("retry-result", &[], format!("returned result code {d}, the last attempt produced {want_last}")));
+                }
+            }
+            // every attempt is issued with the caller's own context: a retry is the same call,
+            // so it neither gets more time than the caller allowed nor another trace
+            let caller_deadline = log.iter().find_map(|e| match &e.kind { EvKind::Note { what: "retry_caller_deadline", b, .. } => Some(*b), _ => None });
+            let caller_trace = log.iter().find_map(|e| match &e.kind { EvKind::Note { what: "retry_caller_trace", b, .. } => Some(*b), _ => None });
+            for e in log {
+                match &e.kind {
+                    EvKind::Note { what: "retry_ctx_deadline", a, b } if Some(*b) != caller_deadline => {
+                        let d = caller_deadline.unwrap_or(0);
+                        v.push(viol("retry-context-changed", &["deadline"], format!("attempt {a} was issued with deadline {b}, the caller's deadline is {d}")));
+                        v.push(Violation { prop: "C07", rule: if *b > d { "stretched" } else { "earlier" }.to_string(), tags: vec!["retry".to_string()], detail: format!("retry attempt {a} was issued with deadline {b}, the caller's deadline is {d}") });
+                    }
+                    EvKind::Note { what: "retry_ctx_trace", a, b } if Some(*b) != caller_trace => {
+                        v.push(viol("retry-context-changed", &["trace"], format!("attempt {a} was issued with another trace id")));
+                    }
+                    _ => {}
                 }
             }
             // every attempt's request value
